@@ -98,6 +98,17 @@ def identities(kind):
                 lambda **kw: ref_power_coeffs(pts(kw))[::-1]))
     ids.append(('bez2poly_poly1d', pv + ['t'], lambda **kw: bez2poly(mk(kw), return_poly1d=True)(kw['t']),
                 lambda **kw: ref_point(pts(kw), kw['t'])))
+    # the same options by position, on control-point tuples as well as on segment objects
+    ids.append(('bez2poly_standard_order_positional', pv, lambda **kw: list(bez2poly(mk(kw), False)),
+                lambda **kw: ref_power_coeffs(pts(kw))[::-1]))
+    ids.append(('bez2poly_standard_order_of_tuple', pv, lambda **kw: list(bez2poly(tuple(pts(kw)), numpy_ordering=False)),
+                lambda **kw: ref_power_coeffs(pts(kw))[::-1]))
+    ids.append(('bez2poly_poly1d_positional', pv + ['t'], lambda **kw: bez2poly(mk(kw), True, True)(kw['t']),
+                lambda **kw: ref_point(pts(kw), kw['t'])))
+    ids.append(('bezier2polynomial_standard_order_positional', pv, lambda **kw: list(bezier2polynomial(pts(kw), False)),
+                lambda **kw: ref_power_coeffs(pts(kw))[::-1]))
+    ids.append(('poly2bez_bpoints_positional', pv, lambda **kw: list(poly2bez(list(mk(kw).poly(True)), True)),
+                lambda **kw: pts(kw)))
     ids.append(('bpoints', pv, lambda **kw: list(mk(kw).bpoints()), lambda **kw: pts(kw)))
     # through a numpy.poly1d (which drops exactly-zero leading coefficients): the recovered control
     # points may be fewer, but must describe the same curve
